@@ -334,8 +334,10 @@ def run_dist(case):
     vin = list(case["input"])
     ref, injected, n_full = reference(c, vin)
     dists = {}
+    # the backend is named by a string or handed over as a Backend object (alternating, a function of the case)
+    as_object = (len(prog["ops"]) + sum(vin)) % 2 == 1
     for backend in ("permanent", "slos"):
-        smp = emulator.Sampler(c, lw.State(list(vin)), backend=backend)
+        smp = emulator.Sampler(c, lw.State(list(vin)), backend=emulator.Backend(backend) if as_object else backend)
         d = call(f"probability_distribution[{backend}]", lambda s=smp: s.probability_distribution)
         check_dist(f"Sampler[{backend}]", d, ref, injected, n_full, c.n_modes)
         dists[backend] = {tuple(k): v for k, v in d.items()}
